@@ -151,6 +151,7 @@ class Interp:
         self._new_id = 0
         self.unresolved = []
         self.loop_shape = {}
+        self.loop_init = {}
         self.pending = []
         self.record = True
         if sticky_attrs:
@@ -429,6 +430,8 @@ class Interp:
                 if isinstance(n_, ast.AugAssign) and isinstance(n_.target, ast.Name):
                     rebound.add(n_.target.id)
         for n_ in assigned:
+            if n_ in fr.env:
+                self.loop_init[(canon.get(n_, n_), lid)] = fr.env[n_]
             if n_ in fr.env and n_ not in rebound:
                 # only element stores inside the loop: the array keeps the shape it had on entry
                 self.loop_shape[(canon.get(n_, n_), lid)] = fr.env[n_]
@@ -576,11 +579,50 @@ class Interp:
                 return T.mk_tuple([T.mk_sub(a, idx) for a in args]), idx
         return Term.of(Atom('elem', it, lid)), idx
 
+    def _list_builder(self, loop, name, info, init, fr):
+        """acc = []; for x in it: acc.append(f(x))   ==   acc = [f(x) for x in it]
+        (one unconditional append at the top level of the body, the list not otherwise mentioned in the loop)"""
+        ia = init.single_atom() if init is not None else None
+        if ia is None or ia.kind != 'list' or ia.args or loop.orelse:
+            return None
+        uses = [n for b in loop.body for n in ast.walk(b) if isinstance(n, ast.Name) and n.id == name]
+        tops = [st for st in loop.body if isinstance(st, ast.Expr) and isinstance(st.value, ast.Call)
+                and isinstance(st.value.func, ast.Attribute) and st.value.func.attr == 'append'
+                and isinstance(st.value.func.value, ast.Name) and st.value.func.value.id == name
+                and len(st.value.args) == 1 and not st.value.keywords]
+        if len(uses) != 1 or len(tops) != 1:
+            return None
+        if any(isinstance(n, (ast.Break, ast.Continue, ast.Return)) for b in loop.body for n in ast.walk(b)):
+            return None
+        lid = info['id']
+        lv = Term.of(Atom('loopvar', info.get('canon', {}).get(name, name), lid))
+        after = info.get('env_exit', {}).get(name)
+        aa = after.single_atom() if after is not None else None
+        if aa is None or aa.kind != 'call' or aa.args[0] != 'mut.append' or len(aa.args[1]) != 2 or aa.args[1][0].key != lv.key:
+            return None
+        v = aa.args[1][1]
+        for a in T.all_atoms(v).values():
+            if a.kind in ('loopvar', 'after') and lid in a.args:
+                return None
+        cid = f'C{loop.lineno}:{loop.col_offset}:0'
+
+        def fn(a):
+            if a.kind in ('elem', 'key') and len(a.args) == 2 and a.args[1] == lid:
+                return Term.of(Atom(a.kind, a.args[0], cid))
+            if a.kind == 'idx' and a.args == (lid,):
+                return Term.of(Atom('idx', cid))
+            return None
+        elt = T.subst(v, fn)
+        return Term.of(Atom('comp', 'list', elt, (T.mk_tuple([info['iter']]),)))
+
     def _accumulator(self, loop, name, info, init, fr):
         """`x += c` once, unconditionally, at the top level of a for body, c loop-invariant:
         after the loop x == init + trip*c."""
         if init is None:
             return None
+        lb = self._list_builder(loop, name, info, init, fr)
+        if lb is not None:
+            return lb
         hits = []
         for st in loop.body:
             for n in ast.walk(st):
